@@ -4,6 +4,7 @@ import (
 	"fmt"
 	"go/types"
 	"math"
+	"net"
 	"path/filepath"
 	"strconv"
 	"strings"
@@ -250,6 +251,75 @@ func init() {
 		r, n := th.decodeRune(mkStrSym(bytesOf(args[0])), 0)
 		return Tuple{r, intV(int64(n))}
 	})
+
+	// ---- unique (interning): handles are equal iff the values are ----
+	reg("unique.Make", func(th *Thread, fr *frame, fn *ssa.Function, args []Value) Value {
+		w := th.p.w
+		k, ok := concreteKey(args[0])
+		if !ok {
+			panic(unsupported{"unique.Make on a symbolic value"})
+		}
+		k = fn.String() + "|" + k
+		if w.interned == nil {
+			w.interned = map[string]*Value{}
+		}
+		p, ok := w.interned[k]
+		if !ok {
+			p = new(Value)
+			*p = copyVal(args[0])
+			w.interned[k] = p
+		}
+		return Struct{p}
+	})
+	reg("net.IPv4", func(th *Thread, fr *frame, fn *ssa.Function, args []Value) Value {
+		out := make([]Value, 16)
+		for i := range out {
+			out[i] = BV(8, 0)
+		}
+		out[10], out[11] = BV(8, 0xff), BV(8, 0xff)
+		for i := 0; i < 4; i++ {
+			out[12+i] = args[i]
+		}
+		return out
+	})
+	reg("net.JoinHostPort", func(th *Thread, fr *frame, fn *ssa.Function, args []Value) Value {
+		h, p := args[0].(Str), args[1].(Str)
+		if h.B != nil || p.B != nil {
+			panic(unsupported{"net.JoinHostPort on symbolic strings"})
+		}
+		return Str{S: net.JoinHostPort(h.S, p.S)}
+	})
+	reg("net.ParseIP", func(th *Thread, fr *frame, fn *ssa.Function, args []Value) Value {
+		h := args[0].(Str)
+		if h.B != nil {
+			panic(unsupported{"net.ParseIP on a symbolic string"})
+		}
+		ip := net.ParseIP(h.S)
+		if ip == nil {
+			return []Value(nil)
+		}
+		out := make([]Value, len(ip))
+		for i, b := range ip {
+			out[i] = BV(8, uint64(b))
+		}
+		return out
+	})
+	reg("net.IP.String", func(th *Thread, fr *frame, fn *ssa.Function, args []Value) Value {
+		b, ok := args[0].([]Value)
+		if !ok {
+			return Str{S: "<nil>"}
+		}
+		raw := make([]byte, len(b))
+		for i, x := range b {
+			t := x.(*Term)
+			if t.Op != OpConst {
+				panic(unsupported{"net.IP.String on symbolic bytes"})
+			}
+			raw[i] = byte(t.Val)
+		}
+		return Str{S: net.IP(raw).String()}
+	})
+	reg("(net.IP).String", intrinsics["net.IP.String"])
 
 	// ---- strconv on symbolic integers: opaque text (digits are never the subject) ----
 	for _, n := range []string{"strconv.FormatInt", "strconv.FormatUint", "strconv.Itoa"} {
